@@ -281,15 +281,10 @@ def dentryRow (e : Diff.DEntry) : DRow :=
 theorem dconn_row (d : DConn) : d.row = dentryRow d.toDEntry := rfl
 
 /-- the entries the diff formatters work on are the computed diff of `Model/Diff.lean` (`Diff.compute`, the subject of
-C04) — provided no real workload is named `ingress-controller` (the Go code exempts every peer of that name from the
-new/lost annotation, `Diff.isWorkloadAbsent` only the pseudo peer) -/
-theorem diff_entries_are_computed_diff (e1 e2 : List Entry) (p1 p2 : List LPeer)
-    (h : ∀ kp ∈ Diff.mergeIPblocks (DiffLayer.diffMap
-        (Diff.refine (e1.map Diff.ofEntry) (Diff.disjointBlocks (Diff.ipBlocksOf (e1.map Diff.ofEntry)) (Diff.ipBlocksOf (e2.map Diff.ofEntry))))
-        (Diff.refine (e2.map Diff.ofEntry) (Diff.disjointBlocks (Diff.ipBlocksOf (e1.map Diff.ofEntry)) (Diff.ipBlocksOf (e2.map Diff.ofEntry))))),
-      ∀ x, (kp.2.first = some x ∨ kp.2.second = some x) → ICOnlyFake x.src ∧ ICOnlyFake x.dst) :
+C04), with the peers kept -/
+theorem diff_entries_are_computed_diff (e1 e2 : List Entry) (p1 p2 : List LPeer) :
     (diffConns e1 e2 p1 p2).map DConn.toDEntry = Diff.compute e1 e2 p1 p2 :=
-  diffConnsLists_toDEntry _ _ _ _ h
+  diffConnsLists_toDEntry _ _ _ _
 
 /-- every diff format is a renderer applied to a table of rows (for a non-empty diff) -/
 theorem diff_render (ref1 ref2 : String) {ds : List DConn} (h : diffIsEmpty ds = false) :
